@@ -1,6 +1,9 @@
 import ProductMD.Proofs.C08Images
 import ProductMD.Proofs.C08CI
 import ProductMD.Proofs.C08Ini
+import ProductMD.Proofs.C08TreeInfo
+import ProductMD.Proofs.C08CIRepeat
+import ProductMD.Proofs.C08Manifests
 import ProductMD.Model.DiscInfo
 import ProductMD.Model.ManifestIO
 /-!
@@ -299,6 +302,27 @@ theorem C08_perm_composeinfo_ok (x y : CI.ComposeInfo) (h : CI.Same x y) (hk : C
   | error e => rw [hd] at hx; cases hx
   | ok b => rw [C08_perm_composeinfo x y h hk b hd]; rfl
 
+/-! ## composeinfo: repeated dumps -/
+
+/-- **C08 repeat (composeinfo).**  `dumps : State → State × Bytes` (`CI.dumpsSt`, `Model/ComposeInfoState.lean`: the writer
+threaded through the object in the code's order, with the two mutations a dump makes - `header.version` set to the current
+version, `release.is_layered = True` on every layered-product variant it reaches - also when it fails half-way).
+The second dump writes what the first wrote (or raises what it raised). -/
+theorem C08_repeat_composeinfo (s : CI.CIState) : (CI.dumpsSt (CI.dumpsSt s).1).2 = (CI.dumpsSt s).2 := by
+  rw [CI.dumpsSt_snd, CI.dumpsSt_snd]
+  obtain ⟨vs', e, ht, _⟩ := CI.dumpsSt_state s
+  rw [e]
+  exact CI.dumps_touched s.ci ht
+
+/-- the stateful writer produces the text of the pure one (so every `C08_perm_composeinfo*` statement is about it too), and
+the object it leaves behind differs from the original only in `header.version` (old or current) and in forced
+`is_layered` flags of layered-product variants (`CI.Touched`) -/
+theorem C08_repeat_composeinfo_state (s : CI.CIState) :
+    (CI.dumpsSt s).2 = CI.dumps s.ci ∧
+    ∃ vs', (CI.dumpsSt s).1.ci = { s.ci with variants := vs' } ∧ CI.TouchedL s.ci.variants vs' ∧
+      ((CI.dumpsSt s).1.version = s.version ∨ (CI.dumpsSt s).1.version = CI.currentVersion) :=
+  ⟨CI.dumpsSt_snd s, CI.dumpsSt_state s⟩
+
 /-! ## treeinfo: the INI layer and the comma lists -/
 
 /-- **the INI bytes are a function of the document modulo the order of sections and of the options inside a section**
@@ -473,6 +497,34 @@ theorem C08_perm_manifests (k : Mf.Kind) (m m' : Mf.Manifest) (hc : m.compose = 
             | exact .dict (.cons _ hp (.cons _ (.refl _) .nil)) (by simp only [List.map_cons, List.map_nil]; decide)
             | exact .dict (.cons _ (.refl _) (.cons _ hp .nil)) (by simp only [List.map_cons, List.map_nil]; decide)
 
+/-- **C08 (manifest builders): two state updates at different addresses commute.**  Every `add` of the three builders is
+`setPathS leaf path state` after checks that do not touch the state (`Rpms.add_eq`, `Modules.add_eq`, `ExtraFiles.add_eq`); for
+ANY two leaf updates and any two different paths of the same length the two orders give the same mapping up to the order of dict
+entries.  (Towards the statement on whole HISTORIES - a rearrangement of non-colliding calls builds a `JEq` mapping - what is
+still missing is the congruence `JEq s s' → JEq (add s a).1 (add s' a).1`; histories are covered by correspondence.) -/
+theorem C08_manifests_updates_commute (f1 f2 : PyVal → PyVal × Mf.Out) (p1 p2 : List Str) (hl : p1.length = p2.length)
+    (hne : p1 ≠ p2) (s : PyVal) (hs : Mf.NodupAll s) :
+    JEq (Mf.setPathS f2 p2 (Mf.setPathS f1 p1 s).1).1 (Mf.setPathS f1 p1 (Mf.setPathS f2 p2 s).1).1 :=
+  Mf.setPathS_comm f1 f2 p1 p2 hl hne s hs
+
+/-- `Rpms.add` for two accepted calls that file under different `[variant][arch][srpm]` tables: either order, the same
+mapping up to dict order -/
+theorem C08_rpms_adds_commute (s : PyVal) (hs : Mf.NodupAll s) (a b : Mf.RpmsArgs) (pa pb : Mf.RpmsPlan)
+    (ha : Mf.rpmsCheck a = .ok pa) (hb : Mf.rpmsCheck b = .ok pb)
+    (hne : [a.variant, a.arch, pa.srpmKey] ≠ [b.variant, b.arch, pb.srpmKey]) :
+    JEq (Mf.Rpms.add (Mf.Rpms.add s a).1 b).1 (Mf.Rpms.add (Mf.Rpms.add s b).1 a).1 := by
+  simp only [Mf.Rpms.add_eq, ha, hb]
+  exact Mf.setPathS_comm _ _ [a.variant, a.arch, pa.srpmKey] [b.variant, b.arch, pb.srpmKey] (by simp) hne s hs
+
+/-- `Modules.add` for two accepted calls with different `[variant][arch][uid]` (calls that hit the same module concatenate
+its caller-ordered rpm list: their relative order is content) -/
+theorem C08_modules_adds_commute (s : PyVal) (hs : Mf.NodupAll s) (a b : Mf.ModulesArgs) (pa pb : Mf.ModulesPlan)
+    (ha : Mf.modulesCheck a = .ok pa) (hb : Mf.modulesCheck b = .ok pb)
+    (hne : [a.variant, a.arch, pa.uid] ≠ [b.variant, b.arch, pb.uid]) :
+    JEq (Mf.Modules.add (Mf.Modules.add s a).1 b).1 (Mf.Modules.add (Mf.Modules.add s b).1 a).1 := by
+  simp only [Mf.Modules.add_eq, ha, hb]
+  exact Mf.setPathS_comm _ _ [a.variant, a.arch, pa.uid] [b.variant, b.arch, pb.uid] (by simp) hne s hs
+
 /-- **C08 repeat (rpms, modules, extra_files).**  A dump sets `header.version` and nothing else that the next dump reads. -/
 theorem C08_repeat_manifests (k : Mf.Kind) (m : Mf.Manifest) : (Mf.dumps k (Mf.dumps k m).1).2 = (Mf.dumps k m).2 := by
   have h : (Mf.dumps k m).1.compose = m.compose ∧ (Mf.dumps k m).1.payload = m.payload := by
@@ -482,27 +534,81 @@ theorem C08_repeat_manifests (k : Mf.Kind) (m : Mf.Manifest) : (Mf.dumps k (Mf.d
     | ok u => cases u; exact ⟨rfl, rfl⟩
   exact C08_perm_manifests k _ _ h.1 (h.2 ▸ JEq.refl _)
 
-/-! ## treeinfo, the whole writer (partial) -/
-
-/- Full statement (not proved): for trees `t ≈ t'` (variant dicts at every level, platforms, checksums, image tables, path
-tables rearranged) `TI.serialize t mv = .ok d → ∃ d', TI.serialize t' mv = .ok d' ∧ render d' = render d`.
-Proved: the two layers it decomposes into - every comma list the writer builds is order-independent
-(`C08_treeinfo_platforms`, `C08_treeinfo_variants_list`, `C08_treeinfo_addons`) and the bytes are a function of the written
-document modulo the order of sections and options (`C08_ini_canonical`).  Missing: that the documents written for `t` and `t'`
-are `IniEq` (the section-by-section analysis of `serializeInto` under rearrangement, and that success transfers). -/
-
-/-- **C08 (treeinfo), partial.**  Whenever the documents written for two trees are the same up to the order of sections and
-options, the files are byte-identical. -/
-theorem C08_perm_treeinfo_partial (t t' : TI.TreeInfo) (mv : Option Str) (d d' : Ini)
-    (_h : TI.serialize t mv = .ok d) (_h' : TI.serialize t' mv = .ok d') (he : IniText.IniEq d d')
-    (hk : IniText.DistinctKeys d) (hd : Ini.NoDefault d) : IniText.render d = IniText.render d' :=
-  C08_ini_canonical d d' he hk hd
-
-/-! ## treeinfo: repeated dumps -/
+/-! ## treeinfo, the whole writer -/
 
 /-- the text `TreeInfo.dump(f, main_variant)` writes, in the model: a PURE function of the content and of the argument
 (`TI.serialize` takes the object and `main_variant`, returns a document, and has no other input or output) -/
 def TI.dumpText (t : TI.TreeInfo) (mv : Option Str) : Except Err Str := (TI.serialize t mv).map IniText.render
+
+/-- **C08 (treeinfo).**  Two trees with the same content (`TI.Same`: variant containers at every level, the platform set, the
+checksum table and the image tables in any order, path tables answering every lookup alike; `Proofs/C08TreeInfo.lean`) are
+written as the same bytes, and a dump that succeeds for one succeeds for the other.
+`TI.DictKeys`: top-level variant keys, checksum paths and the image names of a platform are pairwise distinct (they are keys of
+Python dicts).  `TI.MainVariantTop`: `main_variant` is `None` or the container key of a top-level variant (a UID or dashed path
+that designates a child is resolved by a first-match scan over the container and is outside this theorem).
+Route: the lookup-form writer specification and its converse (builder `treeinfo`: `serialize_spec`, `serialize_conv`,
+`render_eq_of_CE`); validators cannot tell the two trees apart (`Proofs/RulesAgree.lean`: the fields and hand-bound rules each
+generated class reads are COMPUTED from `Gen.allClasses`, the side conditions are `decide`d on the regenerated file). -/
+theorem C08_perm_treeinfo (t t' : TI.TreeInfo) (mv : Option Str) (hs : TI.Same t t') (hk : TI.DictKeys t)
+    (hmv : TI.MainVariantTop t mv) (b : Str) (h : TI.dumpText t mv = .ok b) : TI.dumpText t' mv = .ok b := by
+  unfold TI.dumpText at h ⊢
+  cases hd : TI.serialize t mv with
+  | error e => rw [hd] at h; cases h
+  | ok d =>
+    rw [hd] at h
+    obtain ⟨d', h', hr⟩ := TI.perm_treeinfo hs hk hmv hd
+    rw [h']
+    simp only [Except.map] at h ⊢
+    rw [hr]; exact h
+
+/-- document level, with the success transfer made explicit -/
+theorem C08_perm_treeinfo_doc (t t' : TI.TreeInfo) (mv : Option Str) (hs : TI.Same t t') (hk : TI.DictKeys t)
+    (hmv : TI.MainVariantTop t mv) (d : Ini) (h : TI.serialize t mv = .ok d) :
+    ∃ d', TI.serialize t' mv = .ok d' ∧ IniText.render d' = IniText.render d := TI.perm_treeinfo hs hk hmv h
+
+namespace TI
+def wVar (id : Str) (paths : List (Str × Str)) (kids : List Variant) : Variant := .mk id id id id tVariant paths kids
+def wTree (plats : List Str) (vs : List Variant) (cs : List (Str × Str × Str)) : TreeInfo :=
+  { headerVersion := "0.0".toList, release := ⟨"F".toList, "F".toList, "22".toList⟩, isLayered := false, baseProduct := none,
+    tree := ⟨"x86_64".toList, .int 1, plats⟩, variants := vs, checksums := cs, images := [], mainimage := none, instimage := none,
+    discnum := none, totaldiscs := none }
+def wT1 : TreeInfo := wTree ["xen".toList, "efi".toList] [wVar "B".toList [(k%"packages", k%"p"), (k%"repository", k%"r")] [], wVar "A".toList [] []]
+  [("b".toList, "md5".toList, "1".toList), ("a".toList, "sha1".toList, "2".toList)]
+def wT2 : TreeInfo := wTree ["efi".toList, "xen".toList, "efi".toList] [wVar "A".toList [] [], wVar "B".toList [(k%"repository", k%"r"), (k%"packages", k%"p")] []]
+  [("a".toList, "sha1".toList, "2".toList), ("b".toList, "md5".toList, "1".toList)]
+
+theorem wT_same : Same wT1 wT2 := by
+  refine ⟨rfl, rfl, rfl, rfl, rfl, rfl, ?_, ?_, List.Perm.swap _ _ _, PermR.refl (fun p => ⟨rfl, List.Perm.refl _⟩) _, rfl, rfl, rfl, rfl⟩
+  · intro x
+    show x ∈ ["xen".toList, "efi".toList] ↔ x ∈ ["efi".toList, "xen".toList, "efi".toList]
+    simp only [List.mem_cons, List.not_mem_nil, or_false]
+    constructor
+    · rintro (h | h) <;> simp [h]
+    · rintro (h | h | h) <;> simp [h]
+  · show TLEq [wVar "B".toList _ [], wVar "A".toList [] []] [wVar "A".toList [] [], wVar "B".toList _ []]
+    refine .trans (.swap _ _ _) (.cons (TVEq.refl _) (.cons ?_ .nil))
+    unfold wVar
+    refine .mk _ _ _ _ _ ?_ .nil
+    intro f
+    rw [Ini.lookup_cons_eq, Ini.lookup_cons_eq, Ini.lookup_cons_eq, Ini.lookup_cons_eq]
+    by_cases h1 : k%"packages" = f
+    · by_cases h2 : k%"repository" = f
+      · exact absurd (h1.trans h2.symm) (by decide)
+      · simp [h1, h2]
+    · by_cases h2 : k%"repository" = f <;> simp [h1, h2]
+theorem wT_keys : DictKeys wT1 := ⟨by decide, by decide, fun p hp => by cases hp⟩
+theorem wT_mv : MainVariantTop wT1 none := fun m hm => by cases hm
+end TI
+
+/-- the hypotheses of `C08_perm_treeinfo` hold for a genuine rearrangement of a tree that IS written -/
+example : ∃ b, TI.dumpText TI.wT1 none = .ok b ∧ TI.dumpText TI.wT2 none = .ok b := by
+  cases h : TI.dumpText TI.wT1 none with
+  | ok b => exact ⟨b, rfl, C08_perm_treeinfo _ _ none TI.wT_same TI.wT_keys TI.wT_mv b h⟩
+  | error e =>
+    have : (match TI.dumpText TI.wT1 none with | .ok _ => true | .error _ => false) = true := by decide +kernel
+    rw [h] at this; cases this
+
+/-! ## treeinfo: repeated dumps -/
 
 /-- a history of `dump` calls on ONE object -/
 def TI.dumpHistory (t : TI.TreeInfo) (calls : List (Option Str)) : List (Except Err Str) := calls.map (TI.dumpText t)
